@@ -9,8 +9,10 @@ are run on the same generated stores and the complete tables are compared).
 Everything is universally quantified: any value type `α`, any number of nodes / edges / properties,
 any trailing shape (rank, singleton and empty dimensions), any mask.
 
+Also modelled: which CSV files `geff_to_csv` writes or keeps (`geffToCsv`, mode `x` / `w`).
+
 Not covered by a theorem (differential tests in the harness, "partial"): pandas' dtype upcasts of
-masked columns, the CSV text written by `DataFrame.to_csv`, its re-parsing, file modes. -/
+masked columns, the CSV text written by `DataFrame.to_csv` and its re-parsing, `Path.with_suffix`. -/
 namespace GeffProps.C17
 open Geff.Dataframe
 variable {α : Type}
